@@ -417,9 +417,7 @@ def handle (j : Json) : Json :=
     let file := parseRulesFile (jfield j "ast")
     let data := parsePV (jfield j "doc")
     let params := (jarr (jfield j "params")).map parsePV
-    let docO : Outcome PV := match mergeParams params with
-      | .ok p => effectiveDoc p data
-      | .err e => .err e | .panic s => .panic s | .outOfFuel => .outOfFuel
+    let docO : Outcome PV := mergedDocument params data
     match docO with
     | .ok doc =>
       match runFile env 100000 file doc with
